@@ -100,14 +100,14 @@ theorem bodyOK_of (hu : DelimU u) {ph ph' : Ph} (hle : ph.le ph' = true) {al : B
       PrefRel (1 + ws.length) L L' ∧ Ops al (cl :: tr) L L' ∧
       (ph'.needWhere = true → Gen.groupableInner.contains c = false → openWhere u L' = false))
     (hk : KidsInv u ph c L) (hi : ListInv u ph' L) :
-    KidsInv u ph' c L' ∧ ListInv u ph' L' ∧ (hasNW L = true → hasNW L' = true) := by
+    KidsInv u ph' c L' ∧ ListInv u ph' L' ∧ (∀ P : Node → Bool, GoodP P → L.any P = true → L'.any P = true) := by
   cases ht : delimTables c with
-  | none => exact ⟨kidsInv_of_not_six ht, (h0 ht).listInv hal hi, (h0 ht).hasNW⟩
+  | none => exact ⟨kidsInv_of_not_six ht, (h0 ht).listInv hal hi, fun _ hP => (h0 ht).anyP hP⟩
   | some p =>
     obtain ⟨mo, mc⟩ := p
     obtain ⟨o, cl, ws, tail, F, tr, hf⟩ := hk mo mc ht
     obtain ⟨h1, h2, h3⟩ := hfr mo mc o cl ws tail F tr hf
-    refine ⟨?_, h2.listInv hal hi, h2.hasNW⟩
+    refine ⟨?_, h2.listInv hal hi, fun _ hP => h2.anyP hP⟩
     intro mo' mc' ht'
     rw [ht] at ht'
     cases ht'
